@@ -429,3 +429,96 @@ def _(c):
     c.raises("negative-offset", "ValueError", when="offset < 0", ensures=[("no-effect", "same_heap('TPState') and same_heap('Fetcher')")])
     c.raises("partition-not-assigned", "Exception")
     c.hook("before", "self._fetcher.seek_to", [("assert", "seeks-the-partition-to-the-offset-given", "a0 == partition and a1 == offset and offset >= 0")])
+
+
+# ------------------------------------------------------------------ replacing the subscription (C05 "superseded ... subscription")
+if "unsubscribe_future" not in CLASSES["Subscription"].fields:
+    CLASSES["Subscription"].fields["unsubscribe_future"] = Fut(NONE)
+
+
+@contract(SS + ":Subscription._unsubscribe", ["C05", "C03"])
+def _(c):
+    """retires a subscription: its unsubscribe_future and the unassign_future of its assignment are resolved - what every
+    staleness check downstream keys on"""
+    c.self_("Subscription")
+    c.no_class_inv = True
+    c.callee_view("Assignment._unassign", ["retired"])
+    c.modifies("Future.state", "Future.nres")
+    c.raises("already-retired", "InvalidStateError")
+    c.ensures("the-subscription-and-its-assignment-are-retired",
+              "self.unsubscribe_future.done() and implies(self._assignment is not None, self._assignment.unassign_future.done())")
+
+
+@contract(SS + ":SubscriptionState._notify_subscription_waiters", ["C05"])
+def _(c):
+    c.self_("SubscriptionState")
+    c.no_class_inv = True
+    c.modifies("self._subscription_waiters", "Future.state", "Future.nres")
+    c.loop(0, header="for waiter in self._subscription_waiters", invariants=[
+        ("list-fixed", "self._subscription_waiters == old(self._subscription_waiters)"),
+        ("visited-waiters-released", "forall(lambda j: implies(0 <= j < $i, self._subscription_waiters[j].done()))")])
+    c.ensures("everybody-waiting-for-a-subscription-is-released",
+              "forall(lambda j: implies(0 <= j < len(old(self._subscription_waiters)), old(self._subscription_waiters)[j].done()))"
+              " and len(self._subscription_waiters) == 0")
+
+
+@contract(SS + ":SubscriptionState._change_subscription", ["C05", "C03"])
+def _(c):
+    """a new subscription (subscribe(), assign(), a pattern match change) retires the one it replaces before it is installed"""
+    c.self_("SubscriptionState")
+    c.param("subscription", Ref("Subscription"))
+    c.no_class_inv = True
+    c.callee_view("Subscription._unsubscribe", ["the-subscription-and-its-assignment-are-retired"])
+    c.callee_view("SubscriptionState._notify_subscription_waiters", ["everybody-waiting-for-a-subscription-is-released"])
+    c.modifies("self._subscription", "self._subscription_waiters", "Future.state", "Future.nres")
+    c.raises("already-retired", "InvalidStateError")
+    c.requires("subscription != self._subscription", "a-new-subscription-object")
+    c.ensures("the-new-subscription-is-installed", "self._subscription == subscription")
+    c.ensures("the-subscription-it-replaces-is-retired",
+              "implies(old(self._subscription) is not None, old(self._subscription).unsubscribe_future.done()"
+              " and implies(old(self._subscription)._assignment is not None, old(self._subscription)._assignment.unassign_future.done()))")
+
+
+@contract(SS + ":SubscriptionState.unsubscribe", ["C05", "C03"])
+def _(c):
+    c.self_("SubscriptionState")
+    c.no_class_inv = True
+    c.bind("SubscriptionType", V(__import__("pyvc.ty", fromlist=["PYOBJ"]).PYOBJ,
+                                 __import__("pyvc.exec_base", fromlist=["PyThing"]).PyThing("enumcls", name="SubscriptionType", ty=SUBTYPE)))
+    c.callee_view("Subscription._unsubscribe", ["the-subscription-and-its-assignment-are-retired"])
+    c.modifies("self._subscription", "self._subscribed_pattern", "self._listener", "self._subscription_type", "Future.state", "Future.nres")
+    c.raises("already-retired", "InvalidStateError")
+    c.ensures("nothing-is-subscribed", "self._subscription is None and self._subscription_type == SubscriptionType.NONE")
+    c.ensures("the-old-subscription-is-retired",
+              "implies(old(self._subscription) is not None, old(self._subscription).unsubscribe_future.done()"
+              " and implies(old(self._subscription)._assignment is not None, old(self._subscription)._assignment.unassign_future.done()))")
+
+
+# ------------------------------------------------------------------ GroupCoordinator._send_req / check_errors
+classmodel("GroupRequestObj", {})
+classmodel("GroupResponseObj", {})
+
+
+@contract(GC + ":GroupCoordinator._send_req", ["C06", "C04", "C13"])
+def _(c):
+    """every group request (JoinGroup, SyncGroup, Heartbeat, OffsetCommit, OffsetFetch, LeaveGroup) goes to the coordinator
+    known when it is sent; a failed send marks that coordinator dead (the coordination routine then finds the next one)
+    and the error goes on to the caller"""
+    c.self_("GroupCoordinator")
+    c.param("request", Ref("GroupRequestObj"))
+    c.returns(Ref("GroupResponseObj"))
+    c.no_class_inv = True
+    c.none_raises = True
+    c.owns("self._client")
+    c.ghost("$dead_reported", BOOL, "False")
+    c.call("self._client.send", returns=Ref("GroupResponseObj"), havoc_all=True, raises=["KafkaError", "CancelledError"],
+           note="AIOKafkaClient.send: suspends; the decoded response")
+    c.call("self.coordinator_dead", modifies=["self_.coordinator_id", "Future.state", "Future.nres"], ghost={"$dead_reported": "True"},
+           note="GroupCoordinator.coordinator_dead (under contract)")
+    c.modifies("self.coordinator_id", "Future.state", "Future.nres")
+    c.raises("no-coordinator-known-or-the-broker-said-so", "GroupCoordinatorNotAvailableError")
+    c.raises("send-failed-after-the-coordinator-was-marked-dead", "KafkaError", ensures=[("the-coordinator-was-marked-dead", "old(self.coordinator_id) is None or $dead_reported")])
+    c.raises("cancelled", "CancelledError")
+    c.hook("before", "self._client.send", [
+        ("assert", "goes-to-the-coordinator-known-at-the-time", "self.coordinator_id is not None and a0 == self.coordinator_id and a1 == request"),
+    ])
